@@ -13,7 +13,7 @@ def b01 (b : Bool) : String := if b then "1" else "0"
 def optS : Option Nat → String | none => "-" | some n => toString n
 
 def stateStr (s : S) : String :=
-  s!"up={b01 s.up} browsing={b01 s.browsing} published={optS s.published} wanted={optS s.wanted} loops={s.loops.length} late={s.afterShutdown}"
+  s!"up={b01 s.up} browsing={b01 s.browsing} published={optS s.published} wanted={optS s.wanted} loops={s.loops.length} late={s.afterShutdown} rep={s.reports}"
 
 partial def loop (h : IO.FS.Stream) (out : IO.FS.Stream) (s : S) : IO Unit := do
   let line ← h.getLine
@@ -32,6 +32,7 @@ partial def loop (h : IO.FS.Stream) (out : IO.FS.Stream) (s : S) : IO Unit := do
   | ["announce", n] => next (.announce (n.toNat?.getD 0))
   | ["unannounce"] => next .unannounce
   | ["shutdown"] => next .shutdown
+  | ["service"] => next .service
   | _ => out.putStrLn "bad-op"; loop h out s
 
 def avahiMain : IO UInt32 := do
